@@ -8,7 +8,10 @@ import itertools, os, re
 import vlib, mmlgen
 
 COQ_TARGET = "props/C07.v"
-THEOREMS = ["C07_numerals_bounded", "C07_hex_numerals_bounded", "C07_saturation_is_cap", "C07_writer_total"]
+THEOREMS = ["C07_numerals_bounded", "C07_hex_numerals_bounded", "C07_saturation_is_cap", "C07_writer_total",
+            "C07_lex_terminates_partial", "C07_lex_f_terminates_partial", "C07_lex_f_terminates_length", "C07_lex_terminates_initial",
+            "C07_builtin_rhythm_inert", "C07_lex_keeps_rhythm_table", "C07_reader_suffix", "C07_lex_terminates_refuted",
+            "C07_lex_rhythm_recursion_diverges"]
 RULE = ("every sequence of up to k lexical fragments from the language's alphabet (k=2 quick over the full alphabet, "
         "k=3 over a reduced alphabet; thorough k=3 full), random junk text incl. non-ASCII, grammar programs with arguments "
         "dropped/duplicated/out of range (every command name of the implementation's table x 16 argument shapes, every reservation head x "
@@ -16,7 +19,10 @@ RULE = ("every sequence of up to k lexical fragments from the language's alphabe
         "pipeline fragment (mmlgen.ext_program: controllers, bends, RPN, reservations, PLAY, Str); non-trivial = distinct input of >= 2 fragments")
 TRUSTED = ["watchdog: a case that makes no progress for 15 s counts as a hang",
            "stack overflow / allocation failure / 64-bit overflow checks live in the runtime: observed on the implementation (debug build), not provable on the model"]
-ASSUMES = ["work the program explicitly requests (huge repeat counts, lengths, track numbers > 999, unbounded recursion) is excluded as the property says"]
+ASSUMES = ["work the program explicitly requests (huge repeat counts, lengths, track numbers > 999, unbounded recursion) is excluded as the property says",
+           "lexer termination (C07_lex_terminates_partial) is proved under lex_safe: inert rhythm table and no '$' in the source, or no 'R' in the source; "
+           "a rhythm macro whose text calls Rhythm on itself recurses for ever (C07_lex_rhythm_recursion_diverges; the implementation overflows its stack) - "
+           "unbounded user recursion, excluded by the property"]
 
 FRAGS = ["c", "d4", "r", "l8", "o", "v", "q", "t", "n60", "n", ",", "[", "]", ":", "[0", "'", "{", "}", "Sub{", "Div{", "(", ")", ">", "<",
          "&", "^", ".", "%", "-", "+", "#", "*", "=", "!", "?", "@", "@5", "y", "y1,", "p", "0", "99999999999999999999", "$", "$FF", "0x",
@@ -49,6 +55,25 @@ def requested_work(s):
         return True
     if re.search(r"FUNCTION|Function", s):
         return True
+    if rhythm_macro_calls_rhythm(s):
+        return True
+    return False
+
+
+def rhythm_macro_calls_rhythm(s):
+    """unbounded user recursion through the rhythm macros: a definition `$x{body}` whose body can spell a Rhythm command
+    (holds 'R' or full-width 'R'); Rhythm{...x...} lexes the EXPANSION of its block, so such a body re-enters itself
+    (`$a{Rhythm{a}} Rhythm{a}` overflows the stack; props/C07.v C07_lex_rhythm_recursion_diverges is the model's side of it)"""
+    for m in re.finditer(r"[$\uFF04].[ \t]*=?[ \t]*\{", s, re.S):
+        depth, i = 1, m.end()
+        while i < len(s) and depth > 0:
+            if s[i] == "{":
+                depth += 1
+            elif s[i] == "}":
+                depth -= 1
+            i += 1
+        if re.search("[R\uFF32]", s[m.end():i]):
+            return True
     return False
 
 
